@@ -185,7 +185,7 @@ pub fn check_main(args: &[String], exe_normal: &str) -> i32 {
     let seed: u64 = std::env::var("VERIF_SEED").ok().and_then(|s| s.parse().ok()).unwrap_or(0);
     let t0 = Instant::now();
     let cap = if quick {
-        Duration::from_secs(std::env::var("VCHECK_QUICK_CAP_S").ok().and_then(|s| s.parse().ok()).unwrap_or(100))
+        Duration::from_secs(std::env::var("VCHECK_QUICK_CAP_S").ok().and_then(|s| s.parse().ok()).unwrap_or(300))
     } else {
         Duration::from_secs(std::env::var("VCHECK_THOROUGH_CAP_S").ok().and_then(|s| s.parse().ok()).unwrap_or(2400))
     };
